@@ -62,7 +62,7 @@ func tieCases(r *vk.Run, w *Workload, rng *rand.Rand, nrec int) {
 	}
 	evs := w.Rec.Events
 	n := endOfWorkload(evs)
-	sc := derive(evs, n, w.Cfg.IOConc)
+	sc := derive(evs, n, w.Cfg.IOConc, !w.Cfg.Free)
 	if sc.reason != "" {
 		// the real trace has a shape the model has no schedule for: that is a disagreement
 		js := base()
@@ -85,8 +85,14 @@ func tieCases(r *vk.Run, w *Workload, rng *rand.Rand, nrec int) {
 	r.Case(fmt.Sprintf("CRun %d %d %d %s", w.Cfg.AhtThld, w.Cfg.MaxActive, w.Cfg.IOConc, coqList(sc.items)),
 		js, bucket, sc.nTx >= 2 && sc.nSync >= 1)
 
-	// recovery correspondence at crash points between model operations
+	// recovery correspondence at crash points between model operations.  Recovery looks at the values
+	// of the reloaded records (fix ccd70f3): with concurrent committers the trace does not tell which
+	// value extent belongs to which record, so only sequential-committer workloads are compared.
 	if len(sc.ops) == 0 {
+		return
+	}
+	if w.Cfg.Free {
+		r.Stats["rec-skipped/concurrent-committers"]++
 		return
 	}
 	idx := rng.Perm(len(sc.ops))
